@@ -617,14 +617,20 @@ class DataFileManager:
         unvalidated - such a column used to skip this test altogether, and
         1.5 was stored as 1), and every definition that names no known type
         (other dict / list shapes, unknown names, map<>, struct<>) is stored in
-        a string column. Only list<> elements are left to pyarrow.
+        a string column. A list<element> column holds lists whose every element
+        passes this test for the element type (pyarrow converts the elements
+        like any other cell: [1.5, 2.7] used to be stored as [1, 2] in a
+        list<long> column).
         """
         if value is None:
             return True
         if isinstance(field_type, dict):
             field_type = field_type.get("type", "string")
         if isinstance(field_type, str) and field_type.startswith("list<"):
-            return True
+            if not isinstance(value, (list, tuple)):
+                return False
+            element_type = field_type[5:-1]  # as _iceberg_type_to_arrow
+            return all(DataFileManager._value_fits(element_type, item) for item in value)
         if not isinstance(field_type, str) or field_type not in _PRIMITIVE_COLUMN_TYPES:
             field_type = "string"
         if field_type == "boolean":
